@@ -83,6 +83,15 @@ type c08Def struct {
 	Body   *c08Expr     `json:"body"`
 	Binds  []c08Aux     `json:"binds,omitempty"` // (let (binds) (defun …)): variables captured by the definition
 	Sp     int          `json:"sp,omitempty"`    // spelling of the name in the defun form
+	Macro  bool         `json:"macro,omitempty"` // (defmacro name () body): a macro without parameters — for the model a function without parameters
+}
+
+// the defining form: a macro without parameters is, for the model, a function without parameters
+func (d *c08Def) definer(styled bool) string {
+	if d.Macro && styled {
+		return "defmacro"
+	}
+	return "defun"
 }
 
 // every variable a body may use
@@ -301,7 +310,7 @@ func (s c08Step) text(mangle func(string) string, styled bool) string {
 				bs.WriteByte(')')
 			}
 			if styled {
-				b.WriteString("(let (" + bs.String() + ") (defun " + name + " (" + ll.String() + ") ")
+				b.WriteString("(let (" + bs.String() + ") (" + s.Def.definer(styled) + " " + name + " (" + ll.String() + ") ")
 				s.Def.Body.render(&b, mangle, styled)
 				b.WriteString("))")
 			} else {
@@ -311,7 +320,7 @@ func (s c08Step) text(mangle func(string) string, styled bool) string {
 			}
 			break
 		}
-		b.WriteString("(defun " + name + " (" + ll.String() + ") ")
+		b.WriteString("(" + s.Def.definer(styled) + " " + name + " (" + ll.String() + ") ")
 		s.Def.Body.render(&b, mangle, styled)
 		b.WriteByte(')')
 	case "undef":
@@ -795,7 +804,10 @@ func (g *c08Gen) call(i int, depth int, vars []string, guarded bool) *c08Expr {
 // callOf builds the argument list for callee from its lambda list.
 func (g *c08Gen) callOf(callee *c08Def, counter *c08Expr, arg func() *c08Expr) *c08Expr {
 	r := g.rng
-	args := []*c08Expr{counter}
+	var args []*c08Expr
+	if len(callee.Params) > 0 {
+		args = append(args, counter)
+	}
 	for k := 1; k < len(callee.Params); k++ {
 		args = append(args, arg())
 	}
@@ -891,11 +903,11 @@ func (g *c08Gen) fill(i int, d *c08Def, callsInBinds bool) {
 			vars = append(vars, gv) // free variables of the body: the global value at the time of the call
 		}
 	}
-	if r.Chance(35) {
+	if r.Chance(35) && !d.Macro {
 		for _, x := range []string{"u", "w"}[:1+r.Intn(2)] {
 			init := g.expr(i, 1+r.Intn(2), vars, false, r.Chance(30))
-			if init.Kind == "const" || init.Kind == "var" {
-				// slip evaluates an &aux init only when it is a list form
+			if init.Kind == "const" || init.Kind == "var" || (init.Kind == "call" && len(init.Args) == 0) {
+				// slip evaluates an &aux init only when it is a list form with at least two elements
 				init = c08Prim("+", init, c08Const(int64(r.Intn(5))))
 			}
 			d.Aux = append(d.Aux, c08Aux{Name: x, Init: init})
@@ -949,6 +961,11 @@ func (g *c08Gen) program() *c08Program {
 	for i := 0; i < k; i++ {
 		g.funcs = append(g.funcs, g.signature(fmt.Sprintf("f%d", i)))
 	}
+	if r.Chance(25) {
+		// a macro without parameters as the function of the highest rank (it calls nothing): defmacro
+		// registers, patches and shares the Lambda of the name the way defun does
+		g.funcs = append(g.funcs, &c08Def{Name: "mc", Macro: true, Sp: g.spelling(false)})
+	}
 	g.capN = 0
 	g.globals = nil
 	if r.Chance(45) {
@@ -996,7 +1013,7 @@ func (g *c08Gen) program() *c08Program {
 	redefine := func(i int, tag string) {
 		// a new definition of an existing function: same lambda list up to &aux, new &aux and body
 		old := g.funcs[i]
-		nd := &c08Def{Name: old.Name, Params: old.Params, Opt: old.Opt, Key: old.Key, Sp: g.spelling(true)}
+		nd := &c08Def{Name: old.Name, Params: old.Params, Opt: old.Opt, Key: old.Key, Sp: g.spelling(!old.Macro), Macro: old.Macro}
 		g.fill(i, nd, true)
 		p.Tail = append(p.Tail, c08Step{Kind: "def", Def: nd, Tag: tag})
 	}
@@ -1654,7 +1671,7 @@ func c08Construct(steps []c08Step, at int) string {
 			}
 		}
 	}
-	lambdaList, closure := false, false
+	lambdaList, closure, macro := false, false, false
 	for i := 0; i <= at && i < len(steps); i++ {
 		s := steps[i]
 		switch s.Kind {
@@ -1670,6 +1687,9 @@ func c08Construct(steps []c08Step, at int) string {
 			}
 			if len(s.Def.Binds) > 0 {
 				closure = true
+			}
+			if s.Def.Macro {
+				macro = true
 			}
 			note(s.Def)
 			defined[s.Def.Name] = i
@@ -1710,6 +1730,9 @@ func c08Construct(steps []c08Step, at int) string {
 	}
 	if closure {
 		extra += " closure"
+	}
+	if macro {
+		extra += " macro"
 	}
 	if gvars > 0 {
 		extra += " gvar"
@@ -2052,6 +2075,50 @@ func c08SweepCells() []c08Cell {
 				def(plain(3), "redef-after-undef"), ag(0), ev(cf("f", 1))}},
 		)
 	}
+	// macros without parameters: defmacro shares defun's machinery (DefLambda patches the registered
+	// Lambda, the creator refers to the shared one, closures): every scenario at a compile position and
+	// at a lazy position of the caller
+	for _, p := range positions {
+		if p.name != "body" && p.name != "prim-arg" && p.name != "if-then" && p.name != "let-init" {
+			continue
+		}
+		mac := func(k int64) *c08Def { return &c08Def{Name: "mc", Macro: true, Body: c08Prim("+", c08Const(k), c08Const(100))} }
+		macClo := func(cn string, k int64) *c08Def {
+			return &c08Def{Name: "mc", Macro: true, Binds: []c08Aux{{Name: cn, Init: c08Const(k)}}, Body: c08Prim("*", c08Var(cn), c08Const(2))}
+		}
+		mk := func(name string) *c08Def { return &c08Def{Name: name, Params: []string{"x"}, Body: p.body(c08Call("mc"))} }
+		g1, g2, g3 := mk("g"), mk("g2"), mk("g3")
+		cg := func(n string) *c08Expr { return c08Call(n, c08Const(3)) }
+		cells = append(cells,
+			c08Cell{"macro/backward/" + p.name, []c08Step{def(mac(1), ""), def(g1, ""), ev(cg("g")), ag(0)}},
+			c08Cell{"macro/forward/" + p.name, []c08Step{def(g1, ""), def(mac(1), ""), ev(cg("g")), ag(0), def(mac(2), "redef"), ag(0)}},
+			c08Cell{"macro/redefine-twice/" + p.name, []c08Step{def(mac(1), ""), ev(c08Call("mc")), def(mac(2), "redef"), def(g1, ""), ev(cg("g")), def(mac(3), "redef"), ag(0), ag(1), ev(cg("g")),
+				def(g2, ""), ev(cg("g2")), def(mac(4), "redef"), ag(1), ag(3)}},
+			c08Cell{"macro/closure/" + p.name, []c08Step{def(g1, ""), def(macClo("c0", 5), ""), ev(cg("g")), def(g2, ""), def(mac(1), "redef"), ag(0), ev(cg("g2")),
+				def(macClo("c1", 7), "redef"), ag(0), ag(1), def(g3, ""), ev(cg("g3")), def(macClo("c2", 9), "redef"), ag(0), ag(1), ag(2)}},
+			c08Cell{"macro/undefine-redefine/" + p.name, []c08Step{def(mac(1), ""), def(g1, ""), ev(cg("g")), undef("mc"), ag(0), def(g2, ""), def(mac(2), "redef-after-undef"), ag(0), ev(cg("g2")),
+				def(mac(3), "redef"), ag(0), ag(1)}},
+			c08Cell{"macro/function-then-macro/" + p.name, []c08Step{def(&c08Def{Name: "mc", Body: c08Const(1)}, ""), def(g1, ""), ev(cg("g")), def(mac(2), "redef"), ag(0), def(&c08Def{Name: "mc", Body: c08Const(3)}, "redef"), ag(0)}},
+		)
+	}
+	// a function defined again with a different parameter list: callers compiled before use the new one
+	for _, p := range positions {
+		if p.name != "body" && p.name != "call-arg" && p.name != "if-then" {
+			continue
+		}
+		g1 := &c08Def{Name: "g", Params: []string{"x"}, Body: p.body(callH())}
+		cg := c08Call("g", c08Const(3))
+		hOpt := &c08Def{Name: "h", Params: []string{"a"}, Opt: []c08Default{{"b", 7}, {"c", 9}}, Body: c08Prim("+", c08Prim("*", c08Var("a"), c08Const(10)), c08Prim("-", c08Var("b"), c08Var("c")))}
+		hKey := &c08Def{Name: "h", Params: []string{"a", "b"}, Key: []c08Default{{"k", 4}}, Aux: []c08Aux{{Name: "u", Init: c08Prim("+", c08Var("a"), c08Var("k"))}}, Body: c08Prim("*", c08Var("u"), c08Var("b"))}
+		hOne := &c08Def{Name: "h", Params: []string{"a"}, Body: c08Var("a")}
+		hThree := &c08Def{Name: "h", Params: []string{"a", "b", "c"}, Body: c08Var("c")}
+		cells = append(cells,
+			c08Cell{"redefine-params/optional/" + p.name, []c08Step{def(h(0), ""), def(g1, ""), ev(cg), def(hOpt, "redef"), ag(0), def(h(1), "redef"), ag(0)}},
+			c08Cell{"redefine-params/key-aux/" + p.name, []c08Step{def(g1, ""), def(h(0), ""), ev(cg), def(hKey, "redef"), ag(0), ev(cg)}},
+			c08Cell{"redefine-params/fewer/" + p.name, []c08Step{def(h(0), ""), def(g1, ""), ev(cg), def(hOne, "redef"), ag(0), def(h(2), "redef"), ag(0)}},
+			c08Cell{"redefine-params/more/" + p.name, []c08Step{def(g1, ""), def(h(0), ""), ev(cg), def(hThree, "redef"), ag(0), def(hOpt, "redef"), ag(0)}},
+		)
+	}
 	// self and mutual recursion with arguments that matter
 	fact := &c08Def{Name: "fa", Params: []string{"n", "a"}, Body: c08If(c08Prim("<", c08Var("n"), c08Const(1)), c08Var("a"),
 		c08Call("fa", c08Prim("-", c08Var("n"), c08Const(1)), c08Prim("+", c08Var("a"), c08Var("n"))))}
@@ -2324,7 +2391,8 @@ func runC08(c *lib.Ctx) {
 	// --- single-cause sweep (seed independent)
 	cells := c08SweepCells()
 	for i, cell := range cells {
-		if !c08Admissible(cell.steps) {
+		if !strings.HasPrefix(cell.name, "redefine-params/") && !c08Admissible(cell.steps) {
+			// (the redefine-params cells call a function with too many / too few arguments on purpose)
 			fmt.Fprintf(os.Stderr, "C08: sweep cell %s is not admissible (harness bug)\n", cell.name)
 			os.Exit(2)
 		}
